@@ -31,6 +31,8 @@ def run(ctx):
 
     ctx.rule('R01.8', 'tasks announced aborted by max-fails are exactly the tasks tako is told to cancel (otherwise they start/finish after their terminal event)')
     ctx.rule('R01.9', 'ComputeTasksBuilder: when the shared task data is flushed into a message the configuration index is cleared (a stale index gives a task another task\'s body and time limit)')
+    ctx.rule('R01.10', 'an outcome recorded in the journal is final across a restart: aborted/canceled tasks that never started are replayed as terminal (not resubmitted)')
+    shared_rules.replay_records_missing_entry(ctx, 'R01.10')
     shared_rules.max_fails_ids(ctx, 'R01.8')
     shared_rules.error_result_reaches_cancel(ctx, 'R01.8')
     cmo = prog.body(T + 'server::task::ComputeTasksBuilder::create_message_on_overflow')
